@@ -13,6 +13,7 @@ import (
 	"math/rand"
 	"os"
 	"path/filepath"
+	"reflect"
 	"sort"
 	"strings"
 	"sync"
@@ -44,6 +45,7 @@ type call struct {
 
 type shared struct {
 	bm, bm2    []uint64
+	bmFull     []uint64
 	r64, r128  []int32
 	sidx, sidx2, ridx []int32
 	keys       []string
@@ -54,6 +56,7 @@ type shared struct {
 	paths      []uint64
 	masks      []int32
 	decBM      [][]uint64
+	decFull    [][]uint64
 	vals       []uint64
 	// seeded argument lists: a different argument class per case
 	sliceArgs [][2]int32
@@ -65,7 +68,9 @@ type shared struct {
 
 func mkShared(r *rand.Rand) *shared {
 	s := &shared{}
-	s.bm = patWords(r, 6+r.Intn(4), 0.1)
+	s.bmFull = patWords(r, 6+r.Intn(4)+2, 0.1)
+	s.bm = s.bmFull[:len(s.bmFull)-2] // a view: two more words with 1-bits lie behind it
+	s.bmFull[len(s.bm)] |= 1 | 1<<63
 	s.bm[0] |= 0x8000000000000421 // bits around the edges of word 0
 	s.bm[1] |= 1<<63 | 1<<3 | 1<<36 // 1-bits after any unaligned slice end inside word 1
 	s.bm2 = patWords(r, 3, 0)
@@ -96,7 +101,22 @@ func mkShared(r *rand.Rand) *shared {
 			m = top<<1 - 1
 		}
 		s.masks = append(s.masks, m)
-		s.decBM = append(s.decBM, patWords(r, int(m+63)/64, 0.3))
+		// the bitmap handed to Decode is a view of a larger shared array: exact, too short, or empty
+		need := int(m+63) / 64
+		full := patWords(r, need+2, 0.3)
+		full[need] |= 1 << uint(r.Intn(64))
+		full[need+1] |= 1 << uint(r.Intn(64))
+		k := need
+		switch len(s.masks) % 3 {
+		case 1:
+			k = r.Intn(need + 1) // too short: the words behind it belong to somebody else
+		case 2:
+			if need > 0 {
+				k = need - 1
+			}
+		}
+		s.decFull = append(s.decFull, full)
+		s.decBM = append(s.decBM, full[:k])
 	}
 	for i := 0; i < 20; i++ {
 		h := 12
@@ -157,10 +177,10 @@ func (s *shared) snapshot() J {
 	}
 	sort.Ints(bwKeys)
 	return J{
-		"bm": digest(s.bm), "bm2": digest(s.bm2), "r64": digest(s.r64), "r128": digest(s.r128),
+		"bm": digest(s.bm), "bmFull": digest(s.bmFull), "bm2": digest(s.bm2), "r64": digest(s.r64), "r128": digest(s.r128),
 		"sidx": digest(s.sidx), "sidx2": digest(s.sidx2), "ridx": digest(s.ridx),
 		"keys": digest(s.keys), "plainA": digest(s.plainA), "strA": digest(s.strA), "enc": digest(s.enc),
-		"paths": digest(s.paths), "masks": digest(s.masks), "decBM": digest(s.decBM), "vals": digest(s.vals),
+		"paths": digest(s.paths), "masks": digest(s.masks), "decBM": digest(s.decBM), "decFull": digest(s.decFull), "vals": digest(s.vals),
 		"tabMask": digest(bitmap.Mask[:]), "tabRMask": digest(bitmap.RMask[:]), "tabMaskUpto": digest(bitmap.MaskUpto[:]),
 		"tabRMaskUpto": digest(bitmap.RMaskUpto[:]), "tabBit": digest(bitmap.Bit[:]), "tabRBit": digest(bitmap.RBit[:]),
 		"tabBitWord": digest(bwKeys), "hooked": hookedTables(),
@@ -385,7 +405,37 @@ func runCall(c call) (d string) {
 			d = "panic:" + fmt.Sprint(r)
 		}
 	}()
-	return digest(c.fn())
+	res := c.fn()
+	d = digest(res)
+	scribble(reflect.ValueOf(res)) // a caller may do what it likes with what it got back
+	return d
+}
+
+// scribble overwrites every element of every slice reachable from a returned value: a returned slice
+// belongs to the caller; if the library kept an alias to it, later results change.
+func scribble(v reflect.Value) {
+	switch v.Kind() {
+	case reflect.Interface, reflect.Ptr:
+		if !v.IsNil() {
+			scribble(v.Elem())
+		}
+	case reflect.Slice:
+		for i := 0; i < v.Len(); i++ {
+			e := v.Index(i)
+			switch e.Kind() {
+			case reflect.Slice, reflect.Interface, reflect.Ptr:
+				scribble(e)
+			case reflect.Int, reflect.Int8, reflect.Int16, reflect.Int32, reflect.Int64:
+				if e.CanSet() {
+					e.SetInt(e.Int() ^ 0x55)
+				}
+			case reflect.Uint, reflect.Uint8, reflect.Uint16, reflect.Uint32, reflect.Uint64:
+				if e.CanSet() {
+					e.SetUint(e.Uint() ^ 0x55)
+				}
+			}
+		}
+	}
 }
 
 func raceReports() string {
